@@ -33,7 +33,7 @@ CHECKS = {
    note="A waiting client's own releaseLock withdraws its pending acquires (left open by the statement, follows the implementation).",
    technique="explicit-state model checking of the real core (BFS over request histories, snapshot de-duplication, reference-model oracle)"),
  "C07": dict(cat="model_checking", engine="wbmc-core/graph", ref="DESIGN.md §3 C07",
-   text="Explicit-state search on the real core over connect, (re-)registration of grave goods / last wills (overlapping patterns, CAS-protected and protected $SYS targets), user writes, subscriptions, ls subscriptions, publish streams, locks and disconnect of 2 (quick) / 3 (thorough) clients in every order; session end must bury, then publish the will, remove the client's $SYS entries, subscriptions, streams and locks, each once, with events as for ordinary deletes/sets, and touch nothing else (full read-back + subscription/lock/stream tables from the snapshot).",
+   text="Explicit-state search on the real core over connect, (re-)registration of grave goods / last wills (overlapping patterns, CAS-protected and protected $SYS targets), user writes, subscriptions, ls subscriptions, publish streams, locks and disconnect of 2 (quick) / 3 (thorough) clients in every order; session end must bury, then publish the will, remove the client's $SYS entries, subscriptions, streams and locks, each once, with events as for ordinary deletes/sets, and touch nothing else (full read-back + subscription/lock/stream tables from the snapshot). A second scenario enumerates lock/acquireLock/releaseLock over two keys by two clients with connect/disconnect, so that the ending session's lock bookkeeping holds stale, duplicate and queued entries before the locks it really holds.",
    note="The events of one session end towards one subscriber are compared as two unordered batches (clean-up + burying, then the will); 'subscriptions' includes ls subscriptions.",
    technique="explicit-state model checking of the real core (BFS over request histories, snapshot de-duplication, reference-model oracle)"),
  "C08": dict(cat="model_checking", engine="wbmc-core/graph", ref="DESIGN.md §3 C08",
@@ -65,8 +65,8 @@ CHECKS = {
    note="Timer-vs-event orders are produced as different step sequences (one stimulus outstanding at a time); delays observed with 10 ms resolution; the connection can always take messages.",
    technique="stateless bounded-exhaustive exploration of the real aggregator on a paused clock (all event/timer sequences up to depth 6-8)"),
  "C11": dict(cat="model_checking", engine="wbmc-core/graph", ref="DESIGN.md §3 C11",
-   text="Explicit-state search where every transition calls the real code with one pending event: the leader loop's request branch (forward, then apply), follower-connected branch (state export + channel registration), grave-goods/last-will forwarding branches (pumped in the loop's biased order), the follower's initial_sync, process_leader_message (through the real JSON encoding of the sync messages) and process_api_call; histories of client activity on the leader with a follower joining at every position (two followers in thorough) and writes offered to the follower; at every quiescent state the follower's user keys (values, kinds, versions) and its view of the registrations must equal the leader's, and direct writes must be refused with NotLeader without any effect.",
-   note="Component level (no sockets); the follower is a deterministic function of (initial sync, command sequence), so delivery timing is not a separate choice; known deviations are attributed by the keys a recorded cause (session end with registrations, import of CAS entries, pre-join registrations) can affect.",
+   text="Explicit-state search where every transition calls the real code with one pending event: the leader loop's request branch (forward, then apply), follower-connected branch (state export + channel registration), grave-goods/last-will forwarding branches (pumped in the loop's biased order), the follower's initial_sync, process_leader_message (through the real JSON encoding of the sync messages) and process_api_call; histories of client activity on the leader with a follower joining at every position (two followers in thorough) and writes offered to the follower; at every quiescent state the follower's user keys (values, kinds, versions) and its view of the registrations must equal the leader's, and direct writes must be refused with NotLeader without any effect. A second scenario (end-to-end) replays every history up to depth 3/4 on two real nodes started with spawn_worterbuch (leader mode with its TCP cluster sync port, follower mode connecting to it) and requires both nodes to end with exactly the content (values, kinds, versions) the component-level run of the same history gives: that binds the component-level harness to the real loops, sockets and framing.",
+   note="The exhaustive part is component level (no sockets); the end-to-end scenario runs in real time on a multi-thread runtime, establishes quiescence by a marker write that travels the same ordered channel, and covers only short histories; the follower is a deterministic function of (initial sync, command sequence), so delivery timing is not a separate choice; known deviations are attributed by the keys a recorded cause (session end with registrations, import of CAS entries, pre-join registrations) can affect.",
    technique="explicit-state model checking over the real leader/follower step functions (one pending event per transition, snapshot de-duplication, differential oracle leader vs follower)"),
  "C12": dict(cat="model_checking", engine="wbmc-core/graph", ref="DESIGN.md §3 C12",
    text="Explicit-state search over leader histories x follower join point x persistence ticks x leader-loss point: the follower node's core comes from the real persistence::restore under the configuration the orchestrator's command line produces (Config::new(Some(Args{--follower..})) with only the data directory in the environment), it flushes where run_in_follower_mode flushes, is stopped by the shutdown sequence and restored in --leader mode from the same directory; the promoted core must hold every user key the follower had received, minus the grave goods and plus the last wills of all clients connected to the old leader (including those registered before the join).",
